@@ -1,0 +1,77 @@
+//go:build verif
+
+package collection
+
+import (
+	syn "sync/atomic"
+)
+
+// Verification hooks.  They are compiled in only with the "verif" build tag
+// and do nothing until a handler is installed with VerifSetHandler.
+//
+//   - verifYield is a scheduling point: it is called immediately before a
+//     lock acquisition, a channel send or a channel receive of a queue.
+//   - verifNote reports a state change (close of the token channel, its
+//     replacement) from inside the critical section that performs it.
+//   - verifSpawn is called immediately before a `go` statement.
+
+const (
+	verifLock = iota
+	verifSend
+	verifRecv
+	verifClose
+	verifSwap
+)
+
+// Exported names of the events for handlers.
+const (
+	VerifLock  = verifLock
+	VerifSend  = verifSend
+	VerifRecv  = verifRecv
+	VerifClose = verifClose
+	VerifSwap  = verifSwap
+)
+
+// VerifHandler receives the hook calls.  Channel is the token channel of the
+// queue at the time of the call.
+type VerifHandler struct {
+	Yield func(event int, queue any, channel chan bool)
+	Note  func(event int, queue any, channel chan bool)
+	Spawn func()
+}
+
+var verifHandler syn.Pointer[VerifHandler]
+
+// VerifSetHandler installs (or, with nil, removes) the handler.
+func VerifSetHandler(handler *VerifHandler) {
+	verifHandler.Store(handler)
+}
+
+type verifQueue interface {
+	verifChannel() chan bool
+}
+
+func (v *queue_[V]) verifChannel() chan bool {
+	return v.available_
+}
+
+func verifYield(event int, queue any) {
+	var handler = verifHandler.Load()
+	if handler != nil && handler.Yield != nil {
+		handler.Yield(event, queue, queue.(verifQueue).verifChannel())
+	}
+}
+
+func verifNote(event int, queue any) {
+	var handler = verifHandler.Load()
+	if handler != nil && handler.Note != nil {
+		handler.Note(event, queue, queue.(verifQueue).verifChannel())
+	}
+}
+
+func verifSpawn() {
+	var handler = verifHandler.Load()
+	if handler != nil && handler.Spawn != nil {
+		handler.Spawn()
+	}
+}
